@@ -149,5 +149,5 @@ def sub(s, var, val):
 
 
 def check_ghost(text, src):
-    if not re.match(r'^(bg_ghost_\w+\s*(\(|=|\+=|-=|\+\+|--)|if\s*\(.*\)\s*bg_ghost_\w+)', text):
+    if not re.match(r'^(bg_ghost_[\w.]+\s*(\(|=|\+=|-=|\+\+|--)|if\s*\(.*\)\s*bg_ghost_\w+)', text):
         raise SystemExit('%s: ghost statement may only touch bg_ghost_*: %r' % (src, text))
